@@ -4,7 +4,7 @@ from harness.common import finish, load_findings, run_pool, seed
 from symx import selftest
 
 
-def tasks_for(prop, tier, cfg=None, structure_filter=None, scenario="single", judge=None, sizes=None, findings_prop=None, structures=None):
+def tasks_for(prop, tier, cfg=None, structure_filter=None, scenario="single", judge=None, sizes=None, findings_prop=None, structures=None, label=None):
     findings = [f for f in load_findings(findings_prop or prop) if f.get("family") == "stage"]
     tasks = []
     for st in (structures if structures is not None else stage.structures(tier)):
@@ -12,7 +12,7 @@ def tasks_for(prop, tier, cfg=None, structure_filter=None, scenario="single", ju
             continue
         k = len(stage.R.free_vars(st["rows"]))
         for N in (sizes(tier, k) if sizes else stage.sizes(tier, k)):
-            tasks.append(("harness.stage_run", "run_obligation", "%s/%s/N=%d" % (scenario, st["name"], N),
+            tasks.append(("harness.stage_run", "run_obligation", "%s%s/%s/N=%d" % (label + ":" if label else "", scenario, st["name"], N),
                           dict(prop=judge or prop, st_name=st["name"], N=N, findings=findings, scenario=scenario, cfg=cfg)))
     return tasks
 
